@@ -103,7 +103,7 @@ func sizeFor(c, g, n int, big bool) int {
 	return sizes[(c+g*3+n)%len(sizes)]
 }
 
-const nshapes = 6
+const nshapes = 7
 
 // args of packet (c,g,n) for shape k, and its number of attachments
 func argsFor(c, g, n, k int, big bool) (name string, args []any, natt int) {
@@ -120,8 +120,12 @@ func argsFor(c, g, n, k int, big bool) (name string, args []any, natt int) {
 		return "s3", []any{tag, S3{A: n, B: "b" + tag, C: bin(tag, 1, sz), D: []sio.Binary{bin(tag, 2, 3), bin(tag, 3, 0)}}}, 3
 	case 4:
 		return "s4", []any{tag, map[string]any{"n": float64(n), "s": tag, "l": []any{1.0, "two", true, nil}, "m": map[string]any{"k": 1.5}}}, 0
-	default:
+	case 5:
 		return "s5", []any{tag, bin(tag, 1, 5), bin(tag, 2, sz), &S5{X: bin(tag, 3, 1)}, bin(tag, 4, 0)}, 4
+	default:
+		// received by a handler whose last parameter is an acknowledgement function; the emitter
+		// asks for the acknowledgement only every other time (see withAck)
+		return "s6", []any{tag, n}, 0
 	}
 }
 
@@ -174,6 +178,7 @@ func (w *world) attach(on func(string, any)) {
 	on("s3", func(tag string, s S3) { entry(tag, 3, []any{s}) })
 	on("s4", func(tag string, m map[string]any) { entry(tag, 4, []any{m}) })
 	on("s5", func(tag string, a, b sio.Binary, s *S5, d sio.Binary) { entry(tag, 5, []any{a, b, s, d}) })
+	on("s6", func(tag string, n int, ack func(string)) { entry(tag, 6, []any{n}); ack("ok") }) // (the reply must not carry the tag: it would look like a tagged frame)
 	for _, d := range []string{"s", "s1x", "S1", "s10", "s2 ", " s3", "s4/", "s5,"} {
 		d := d
 		on(d, func(tag string) { vtrace.Emit("h.decoy", "name", d, "tag", tag) })
@@ -322,6 +327,9 @@ func (e *env) scenario(rng *rand.Rand, p params, cfgName string) {
 					for n := 1; n <= p.Per; n++ {
 						k := p.Shapes[r.Intn(len(p.Shapes))]
 						name, args, natt := argsFor(label, g, n, k, p.Big)
+						if k == 6 && n%2 == 0 {
+							args = append(args, func(string) {}) // with an acknowledgement
+						}
 						vtrace.Emit("emit.start", "p", []int{label, g, n}, "natt", natt, "shape", k)
 						if dir == 0 {
 							w.cs[c-1].Emit(name, args...)
@@ -403,7 +411,7 @@ func run(t *testing.T, which string) {
 	e := &env{res: res, w: w}
 	rng := rand.New(rand.NewSource(vres.Seed()))
 	trs := [][]string{{"websocket"}, {"polling"}, {"polling", "websocket"}}
-	all := []int{0, 1, 2, 3, 4, 5}
+	all := []int{0, 1, 2, 3, 4, 5, 6}
 	thorough := vres.Tier() == "thorough"
 	if which == "C01" {
 		// shapes and sizes matter: every transport x recovery off/on x 1..3 clients
